@@ -34,6 +34,7 @@ def setup_import_path():
     import warnings
 
     warnings.filterwarnings("ignore", category=DeprecationWarning)
+    warnings.filterwarnings("ignore", category=RuntimeWarning)
     import logging
 
     logging.getLogger("codebasin").setLevel(logging.CRITICAL + 1)
